@@ -828,6 +828,34 @@ def run(p: Program, rep: Report, tier: str) -> None:
                     rep.ok("R2.4", f"{side}: the 400/416 path forwards the exception's status and headers and opens nothing")
                 else:
                     rep.violation("R2.4", construct(call, text=f"error start {txt[:60]}"), where(call), f"{side}: the range-error path does not forward the exception's status_code and headers")
+        # the dual: the whole-file handler answers only when Range is absent or If-Range is present and did not match. A path
+        # that reaches it with Range present and nothing against it (another disjunct in the test: an empty file, a method, ...)
+        # answers 200 + the whole file where 206 / 416 / 400 is due
+        RNG = {e.b[0] for pa in paths for e in pa.events if e.kind == "call" and callee_is(e.a, "parse_range") and e.b}
+        seen_whole = set()
+        for pa in paths:
+            if pa.exit != "return" or any(e.kind == "call" and callee_is(e.a, "parse_range") for e in pa.events):
+                continue
+            has = [e for e in pa.events if e.kind == "call" and callee_is(e.a, "handle_all")]
+            if not has or not RNG:
+                continue
+            pos = [f for f, t in pa.facts if t]
+            neg = [f for f, t in pa.facts if not t]
+            rpres = any(("cmp", "Eq", r_, ("const", "")) in neg for r_ in RNG)
+            judged_t = [f for f in pos if f[0] == "call" and callee_is(f[1], "judge_if_range")]
+            judged_f = [f for f in neg if f[0] == "call" and callee_is(f[1], "judge_if_range")]
+            ifr_abs = any(f[0] == "cmp" and f[1] == "Eq" and f[3] == ("const", "") and f[2] in J for f in pos)
+            if rpres and not judged_f:
+                other = [t_ for t_ in pa.fact_text() if "judge_if_range" not in t_ and not any(show(r_) in t_ for r_ in RNG) and not any(show(j_) in t_ for j_ in J)]
+                key_ = tuple(other)
+                if key_ in seen_whole:
+                    continue
+                seen_whole.add(key_)
+                node, fnn = col.nodes[has[0].tag]
+                rep.violation("R2.3", construct(call, text="whole file sent although Range applies" + (": " + "; ".join(other)[:60] if other else "")), where(call, node),
+                              f"{side}: a path reaches the whole-file handler although a Range header is present and If-Range is absent or matches"
+                              + (f" (when {'; '.join(other)[:80]})" if other else "") + ": the answer is 200 with the full Content-Length where the range handling owes 206 / 416 / 400 - "
+                              "and the other interface still gives that", path_facts=pa.fact_text(), positive=True)
         if n_range == 0 or n_err == 0:
             rep.undecide("R2.3", f"{side}: __call__ has {n_range} range paths / {n_err} error paths")
         # HEAD answers like GET without the body: WHICH handler answers (and with which arguments besides the header-only flag)
